@@ -16,6 +16,7 @@ import Gotlcp.Lemmas.KeyScheduleRecord
 import Gotlcp.Lemmas.KeyScheduleWrite
 import Gotlcp.Tie.PaddingDtlcp
 import Gotlcp.Tie.Seq
+import Gotlcp.Tie.KeySched
 import Gotlcp.Generated.Facts
 
 set_option linter.unusedSimpArgs false
@@ -791,5 +792,133 @@ theorem C04_src_nonce_injective (c d : Src.dtlcp.Conn) (hc : c.out.seq.length = 
 example : Tie.Seq.incResult (Src.tlcp.halfConn.incSeq { seq := [0#8, 0#8, 0#8, 0#8, 0#8, 0#8, 1#8, 255#8] })
     = some [0, 0, 0, 0, 0, 0, 2, 0] := by decide
 example : Tie.Seq.incResult (Src.tlcp.halfConn.incSeq { seq := List.replicate 8 255#8 }) = none := by decide
+
+
+/-! ### key schedule of the SOURCE TEXT
+
+`pHash`, `prf12`, `prfForVersion` (view: every suite uses `prf12(sm3.New)`), `masterFromPreMasterSecret`
+and `keysFromMasterSecret` of both stacks are regenerated from prf.go on every run (`Gotlcp.Src`);
+`Gotlcp.Tie.KeySched` proves them equal to the models above for every input.  The keyed hash is the
+parameter `ext.hmac` of the translated code; the statements hold for every `ext` whose MAC output has
+a fixed positive length (HMAC-SM3: 32) — labels, seed order, output lengths and the cutting order come
+from the translated text itself, not from the regex facts of `C04_facts`. -/
+
+theorem C04_src_translated : Src.untranslated = [] := by decide
+
+/-- The translated `pHash` of both stacks returns normally for every `result`, `secret`, `seed` (no
+panic, the loop bound is never reached) and fills `result` with P_hash of the standard. -/
+theorem C04_src_phash_is_P_SM3 (ext : Go.Extern) (h : Nat) (hl : ∀ k x, (ext.hmac .sm3 k x).length = h) (hpos : 0 < h)
+    (result secret seed : List (BitVec 8)) :
+    (∃ r, Src.tlcp.pHash ext result secret seed .sm3 = .ok r ∧
+      Tie.KeySched.toBytes r = PRF.pHash (Tie.KeySched.hm ext .sm3) h (Tie.KeySched.toBytes secret)
+        (Tie.KeySched.toBytes seed) result.length) ∧
+    (∃ r, Src.dtlcp.pHash ext result secret seed .sm3 = .ok r ∧
+      Tie.KeySched.toBytes r = PRF.pHash (Tie.KeySched.hm ext .sm3) h (Tie.KeySched.toBytes secret)
+        (Tie.KeySched.toBytes seed) result.length) := by
+  have hl' := Tie.KeySched.hm_length ext .sm3 h hl
+  constructor
+  · obtain ⟨r, h1, _, h3⟩ := Tie.KeySched.tie_pHash ext .sm3 h hl hpos result secret seed
+    exact ⟨r, h1, by rw [h3, C04_phash_is_P_SM3 _ h hl' hpos]⟩
+  · obtain ⟨r, h1, _, h3⟩ := Tie.KeySched.tie_pHash_dtlcp ext .sm3 h hl hpos result secret seed
+    exact ⟨r, h1, by rw [h3, C04_phash_is_P_SM3 _ h hl' hpos]⟩
+
+/-- The translated `masterFromPreMasterSecret` of both stacks returns, for every pre-master secret and
+every pair of randoms, the standard's `PRF(pre, "master secret", client_random ‖ server_random)[0..47]`
+— which is also what the model says (`P` is any `Prims` whose HMAC is the translated code's). -/
+theorem C04_src_master_secret (ext : Go.Extern) (P : Prims) (hP : P.hmac = Tie.KeySched.hm ext .sm3)
+    (hl : ∀ k x, (ext.hmac .sm3 k x).length = P.hLen) (hpos : 0 < P.hLen)
+    (v : BitVec 16) (pre cr sr : List (BitVec 8)) :
+    (∀ s, ∃ m, Src.tlcp.masterFromPreMasterSecret ext v s pre cr sr = .ok m ∧
+      Tie.KeySched.toBytes m = Spec.KeySchedule.masterSecret P (Tie.KeySched.toBytes pre) (Tie.KeySched.toBytes cr)
+        (Tie.KeySched.toBytes sr) ∧
+      Tie.KeySched.toBytes m = masterFromPreMasterSecret P (srcOf .tlcp) (Tie.KeySched.toBytes pre)
+        (Tie.KeySched.toBytes cr) (Tie.KeySched.toBytes sr)) ∧
+    (∀ s, ∃ m, Src.dtlcp.masterFromPreMasterSecret ext v s pre cr sr = .ok m ∧
+      Tie.KeySched.toBytes m = Spec.KeySchedule.masterSecret P (Tie.KeySched.toBytes pre) (Tie.KeySched.toBytes cr)
+        (Tie.KeySched.toBytes sr) ∧
+      Tie.KeySched.toBytes m = masterFromPreMasterSecret P (srcOf .dtlcp) (Tie.KeySched.toBytes pre)
+        (Tie.KeySched.toBytes cr) (Tie.KeySched.toBytes sr)) := by
+  have hlP : ∀ k m, (P.hmac k m).length = P.hLen := by
+    rw [hP]; exact Tie.KeySched.hm_length ext .sm3 P.hLen hl
+  constructor
+  · intro s
+    obtain ⟨m, h1, h2⟩ := Tie.KeySched.tie_master ext P hP hl hpos v s pre cr sr
+    exact ⟨m, h1, h2, by rw [h2, (C04_key_schedule P hlP hpos .tlcp _ [] _ _ []).1]⟩
+  · intro s
+    obtain ⟨m, h1, h2⟩ := Tie.KeySched.tie_master_dtlcp ext P hP hl hpos v s pre cr sr
+    exact ⟨m, h1, h2, by rw [h2, (C04_key_schedule P hlP hpos .dtlcp _ [] _ _ []).1]⟩
+
+/-- The translated `keysFromMasterSecret` of both stacks, for every master secret, every pair of
+randoms and the lengths of any suite parameters: returns normally, and its six slices are the
+standard's key block — `PRF(master, "key expansion", server_random ‖ client_random)` cut as client MAC,
+server MAC, client key, server key, client IV, server IV. -/
+theorem C04_src_key_block (ext : Go.Extern) (P : Prims) (hP : P.hmac = Tie.KeySched.hm ext .sm3)
+    (hl : ∀ k x, (ext.hmac .sm3 k x).length = P.hLen) (hpos : 0 < P.hLen)
+    (v : BitVec 16) (sp : Spec.KeySchedule.SuiteParams) (master cr sr : List (BitVec 8)) :
+    (∀ s, ∃ rest cMAC sMAC cKey sKey cIV sIV,
+      Src.tlcp.keysFromMasterSecret ext v s master cr sr sp.macLen sp.keyLen sp.ivLen
+        = .ok (rest, cMAC, sMAC, cKey, sKey, cIV, sIV) ∧
+      (⟨Tie.KeySched.toBytes cMAC, Tie.KeySched.toBytes sMAC, Tie.KeySched.toBytes cKey, Tie.KeySched.toBytes sKey,
+        Tie.KeySched.toBytes cIV, Tie.KeySched.toBytes sIV⟩ : Spec.KeySchedule.KeyBlock)
+        = Spec.KeySchedule.keyBlock P sp (Tie.KeySched.toBytes master) (Tie.KeySched.toBytes cr) (Tie.KeySched.toBytes sr)) ∧
+    (∀ s, ∃ rest cMAC sMAC cKey sKey cIV sIV,
+      Src.dtlcp.keysFromMasterSecret ext v s master cr sr sp.macLen sp.keyLen sp.ivLen
+        = .ok (rest, cMAC, sMAC, cKey, sKey, cIV, sIV) ∧
+      (⟨Tie.KeySched.toBytes cMAC, Tie.KeySched.toBytes sMAC, Tie.KeySched.toBytes cKey, Tie.KeySched.toBytes sKey,
+        Tie.KeySched.toBytes cIV, Tie.KeySched.toBytes sIV⟩ : Spec.KeySchedule.KeyBlock)
+        = Spec.KeySchedule.keyBlock P sp (Tie.KeySched.toBytes master) (Tie.KeySched.toBytes cr) (Tie.KeySched.toBytes sr)) := by
+  constructor
+  · intro s
+    have := Tie.KeySched.tie_keys ext P hP hl hpos v s master cr sr sp.macLen sp.keyLen sp.ivLen
+      (by omega) (by omega) (by omega) sp.mode
+    simpa only [Int.toNat_natCast] using this
+  · intro s
+    have := Tie.KeySched.tie_keys_dtlcp ext P hP hl hpos v s master cr sr sp.macLen sp.keyLen sp.ivLen
+      (by omega) (by omega) (by omega) sp.mode
+    simpa only [Int.toNat_natCast] using this
+
+/-- non-vacuity: the Lean-native HMAC-SM3 (the MAC the oracle runs), seen as an `Extern`, satisfies the
+hypotheses — so the translated source computes `Spec.KeySchedule.masterSecret sm` on every input -/
+example (v : BitVec 16) (s : Src.tlcp.cipherSuite) (pre cr sr : List (BitVec 8)) :
+    ∃ m, Src.tlcp.masterFromPreMasterSecret (Tie.KeySched.extOf sm.hmac) v s pre cr sr = .ok m ∧
+      Tie.KeySched.toBytes m = Spec.KeySchedule.masterSecret sm (Tie.KeySched.toBytes pre) (Tie.KeySched.toBytes cr)
+        (Tie.KeySched.toBytes sr) := by
+  obtain ⟨m, h1, h2, _⟩ := (C04_src_master_secret (Tie.KeySched.extOf sm.hmac) sm (Tie.KeySched.hm_extOf sm.hmac .sm3).symm
+    (Tie.KeySched.extOf_length sm.hmac sm.hLen sm_hmac_length .sm3) sm_hLen_pos v pre cr sr).1 s
+  exact ⟨m, h1, h2⟩
+
+/-- a toy keyed hash with 4-byte output that depends on the key, on every input byte and on their
+order (for evaluating the translated text inside the kernel) -/
+def toyExt : Go.Extern :=
+  ⟨fun _ k x => [(k ++ x).foldl (fun a b => a * 3#8 + b) 0#8, BitVec.ofNat 8 (k.length + x.length), x.headD 0#8, x.getLastD 0#8]⟩
+
+def toyPrims : Prims := { sm with hmac := Tie.KeySched.hm toyExt .sm3, hLen := 4 }
+
+-- the translated text evaluated (`toOption`: `Except` has no `DecidableEq`): 6 bytes = one whole MAC
+-- output and the first half of the second; both stacks
+example : (Src.tlcp.pHash toyExt (List.replicate 6 0#8) [1#8] [2#8, 3#8] .sm3).toOption
+    = some [0x3c#8, 0x07#8, 0x12#8, 0x03#8, 0xd9#8, 0x07#8] := by decide
+example : (Src.dtlcp.pHash toyExt (List.replicate 6 0#8) [1#8] [2#8, 3#8] .sm3).toOption
+    = some [0x3c#8, 0x07#8, 0x12#8, 0x03#8, 0xd9#8, 0x07#8] := by decide
+-- … against the standard's P_hash, the master secret and the key block, computed by the spec
+example : ((Src.tlcp.pHash toyExt (List.replicate 6 0#8) [1#8] [2#8, 3#8] .sm3).toOption.map Tie.KeySched.toBytes)
+    = some (PRF.pHash toyPrims.hmac 4 [1] [2, 3] 6) := by decide
+set_option maxRecDepth 8192 in
+example : ((Src.tlcp.masterFromPreMasterSecret toyExt 0x0101#16 {} [7#8] [1#8] [2#8]).toOption.map Tie.KeySched.toBytes)
+    = some (Spec.KeySchedule.masterSecret toyPrims [7] [1] [2]) := by decide
+set_option maxRecDepth 8192 in
+example : ((Src.dtlcp.masterFromPreMasterSecret toyExt 0x0101#16 {} [7#8] [1#8] [2#8]).toOption.map Tie.KeySched.toBytes)
+    = some (Spec.KeySchedule.masterSecret toyPrims [7] [1] [2]) := by decide
+-- swapping the randoms gives another secret (the toy MAC sees the order)
+set_option maxRecDepth 8192 in
+example : Spec.KeySchedule.masterSecret toyPrims [7] [1] [2] ≠ Spec.KeySchedule.masterSecret toyPrims [7] [2] [1] := by decide
+set_option maxRecDepth 8192 in
+example : ((Src.tlcp.keysFromMasterSecret toyExt 0x0101#16 {} [7#8] [1#8] [2#8] 1 2 3).toOption.map
+      fun r => (⟨Tie.KeySched.toBytes r.2.1, Tie.KeySched.toBytes r.2.2.1, Tie.KeySched.toBytes r.2.2.2.1,
+        Tie.KeySched.toBytes r.2.2.2.2.1, Tie.KeySched.toBytes r.2.2.2.2.2.1, Tie.KeySched.toBytes r.2.2.2.2.2.2⟩ :
+        Spec.KeySchedule.KeyBlock))
+    = some (Spec.KeySchedule.keyBlock toyPrims ⟨.cbc, 1, 2, 3⟩ [7] [1] [2]) := by decide
+-- a negative length is Go's `makeslice: len out of range` panic (outside the theorem's hypothesis)
+example : (Src.tlcp.keysFromMasterSecret toyExt 0x0101#16 {} [7#8] [1#8] [2#8] (-1) 2 1).toOption = none := by decide
 
 end Gotlcp.Props.C04
